@@ -2,7 +2,8 @@
 import re
 from ..tree import *  # noqa
 from ..flow import Index
-from .. import fmtstr
+from .. import fmtstr, linewriter
+from .. import norm as norm_
 from .c02 import binding_of_pat
 
 W = "patronus::btor2::witness::"
@@ -10,25 +11,13 @@ W = "patronus::btor2::witness::"
 EXPLANATION = ("Static line-shape agreement analysis of btor2::witness (rustc HIR facts + recovered format strings): the printer's formats (header `sat`, property tokens `b<n>`, frame markers `#0` / `@<k>` with k the frame's "
                "position, terminator `.`, bit-vector lines `<id> <bits> <name><suffix>`, array lines `<id> [<index bits>] <data bits> <name><suffix>`) are compared with the reader's recognisers (token count 3/4, id at 0, "
                "value or bracketed index at 1, data at 2, name last with the suffix cut at @ / #, binary radix on both sides); each printed array entry pairs an index with the value selected at that same index; on the "
-               "reader side array entries of one state are merged index by index, every finished input frame is pushed and the scratch vector emptied before the next frame or witness begins.")
+               "reader side array entries of one state are merged index by index, every finished input frame is pushed and the scratch vector emptied before the next frame or witness begins. "
+               "Every placeholder and operand is classified by where its value comes from (parameter, iteration variable, conversion call), not by the spelling of the source.")
 ASSUMPTIONS = ["baa to_bit_str / from_bit_str are inverse", "names containing @, # or blanks are not decided", "ordering of array entries is not decided (the reader sorts)"]
 LEVEL_TEXT = ("Static sibling agreement between the two halves of one text format: field count, field order, bracket characters, markers and radix are decided for every line kind, and the reader's frame bookkeeping is checked for "
               "all stream shapes (any number of witnesses, frames, inputs) rather than the single shape the tests use. Value text is delegated to baa.")
 LEVEL_NOTE = "Agreement of shapes, not a proof of round-trip equality of values; baa's bit-string conversion is trusted."
 TECHNIQUE = "format-string recovery vs. recogniser extraction (token indices, prefix tests); def-use pairing rule; must-call-before-state-change rule"
-
-
-def fmt_tokens(c, f, names=("write", "writeln")):
-    out = []
-    for s_ in fmtstr.macro_sites(c, f["body"], names):
-        pc = fmtstr.parse_call(s_["snippet"])
-        if pc and pc[2] is not None:
-            out.append((s_, pc, fmtstr.tokens(pc[2], pc[3])))
-    return out
-
-
-def tok_str(tk):
-    return ["".join(("{%s}" % p[1]) if p[0] == "arg" else p[1] for p in t) for t in tk]
 
 
 def run(ctx):
@@ -39,178 +28,512 @@ def run(ctx):
     reader(ctx, c)
 
 
+def sites_of(c, f, names=("write", "writeln")):
+    out = []
+    for s_ in fmtstr.macro_sites(c, f["body"], names):
+        pc = fmtstr.parse_call(s_["snippet"])
+        if pc and pc[2] is not None:
+            out.append((s_, fmtstr.shape(pc[2]) + ("\n" if pc[0] == "writeln" else "")))
+        elif pc and pc[0] == "writeln":
+            out.append((s_, "\n"))
+    return out
+
+
+def enum_index_of(ix, node, field):
+    """the index binding of the innermost `for (k, ..) in <witness>.<field>.iter().enumerate()` around node (None if node is not in such a loop)"""
+    it = norm_.iter_context(ix, node)
+    while it is not None:
+        if it["kind"] == "for":
+            b, ms = chain(it["src"])
+            fp = field_path(b)
+            pat = it["pat"]
+            while pat.get("k") in ("pref", "pderef"):
+                pat = pat["pat"]
+            if fp and fp[2] == [field] and [m[0] for m in ms] == ["iter", "enumerate"] and pat.get("k") == "ptuple" and len(pat["subs"]) == 2:
+                kb = binding_of_pat(pat["subs"][0])
+                return kb[1] if kb else None
+        it = norm_.iter_context(ix, it["node"])
+    return None
+
+
 def printer(ctx, c):
     f = ctx.fn("patronus", W + "print_witness")
-    rows = fmt_tokens(c, f)
-    fmts = [pc[2] for _, pc, _ in rows]
-    ctx.inst("R16.1", "printer:header", "sat" in fmts and fmts.index("sat") == 0, f["span"], "a witness must start with the line `sat`: %s" % fmts[:3], sample=fmts)
-    ctx.inst("R16.1", "printer:property-token", "b{bad_id}" in fmts, f["span"], "failed properties must be printed as b<index>: %s" % fmts)
-    ctx.inst("R16.1", "printer:state-frame-marker", "#0" in fmts, f["span"], "the initial state frame must be introduced by `#0`")
-    ctx.inst("R16.1", "printer:input-frame-marker", "@{k}" in fmts, f["span"], "input frames must be introduced by `@<k>`")
-    ctx.inst("R16.1", "printer:terminator", fmts and fmts[-1] == ".", f["span"], "a witness must end with the line `.`: %s" % fmts[-2:])
-    ctx.floor("R16.1", "write sites in print_witness", len(rows), 5)
-    # @k: k is the enumerate index over witness.inputs
     ix = Index(f["body"])
-    ok = False
-    for n in ix.nodes:
-        if n.get("k") == "for":
-            b, ms = chain(n["iter"])
-            fp = field_path(b)
-            if fp and fp[2] == ["inputs"] and [m[0] for m in ms] == ["iter", "enumerate"] and n["pat"].get("k") == "ptuple":
-                kb = binding_of_pat(n["pat"]["subs"][0])
-                ok = kb is not None and kb[0] == "k"
-    ctx.inst("R16.1", "printer:frame-number-is-position", ok, f["span"], "the number after @ must be the frame's position in witness.inputs (the reader asserts it equals the number of frames read so far)")
+    defs = local_defs(f)
+    rows = sites_of(c, f)
+    shapes = [sh for _, sh in rows]
+    ctx.inst("R16.1", "printer:header", bool(shapes) and shapes[0] == "sat\n", f["span"], "a witness must start with the line `sat`: %s" % shapes[:3], sample=shapes)
+    # property tokens: b<element of failed_safety>
+    okb = False
+    for s_, sh in rows:
+        if sh == "b{}":
+            an = fmtstr.arg_nodes(s_)
+            it = norm_.iter_context(ix, s_["node"])
+            if an and an[0] is not None and it is not None and it["kind"] == "for":
+                b, ms = chain(it["src"])
+                fp = field_path(b)
+                binds = [i for _, i in pat_bindings(it["pat"])]
+                okb = bool(fp) and fp[2] == ["failed_safety"] and local_id(an[0]) in binds and [m[0] for m in ms][:1] == ["iter"] and \
+                    (len(binds) == 1 or (it["pat"].get("k") == "ptuple" and local_id(an[0]) == (binding_of_pat(it["pat"]["subs"][1]) or (None, None))[1]))
+    ctx.inst("R16.1", "printer:property-token", okb, f["span"], "failed properties must be printed as b<index> for every element of failed_safety: %s" % shapes)
+    ctx.inst("R16.1", "printer:state-frame-marker", "#0\n" in shapes, f["span"], "the initial state frame must be introduced by `#0`")
+    # @k: k is the enumerate index over witness.inputs
+    okk = False
+    kid = None
+    for s_, sh in rows:
+        if sh == "@{}\n":
+            an = fmtstr.arg_nodes(s_)
+            kid = enum_index_of(ix, s_["node"], "inputs")
+            okk = bool(an) and an[0] is not None and kid is not None and is_local(an[0], kid)
+    ctx.inst("R16.1", "printer:input-frame-marker", "@{}\n" in shapes, f["span"], "input frames must be introduced by `@<k>`")
+    ctx.inst("R16.1", "printer:frame-number-is-position", okk, f["span"], "the number after @ must be the frame's position in witness.inputs (the reader asserts it equals the number of frames read so far)")
+    ctx.inst("R16.1", "printer:terminator", bool(shapes) and shapes[-1] == ".\n", f["span"], "a witness must end with the line `.`: %s" % shapes[-2:])
+    ctx.floor("R16.1", "write sites in print_witness", len(rows), 5)
     # suffixes passed to the value printers
     calls = [n for n in ix.nodes if n.get("k") == "call" and (callee(n) or "").startswith(W + "print_witness_")]
     sufs = {}
     for n in calls:
-        a = peel(n["args"][4])
-        txt = show(a)
-        if a.get("k") == "local":
-            d = local_defs(f).get(a["id"])
-            if d and d[0] == "let":
-                sites = fmtstr.macro_sites(c, d[1]["init"], ("format",))
-                txt = fmtstr.parse_call(sites[0]["snippet"])[2] if sites else txt
+        a = resolve(n["args"][4])
+        txt = None
+        if a.get("k") == "lit":
+            txt = ("lit", a.get("v"))
+        else:
+            fs = fmtstr.macro_sites(c, a, ("format",))
+            if fs:
+                pc = fmtstr.parse_call(fs[0]["snippet"])
+                an = fmtstr.arg_nodes(fs[0])
+                k2 = enum_index_of(ix, n, "inputs")
+                txt = ("fmt", fmtstr.shape(pc[2]) if pc and pc[2] is not None else None, bool(an) and an[0] is not None and k2 is not None and is_local(an[0], k2))
         sufs[callee(n).split("::")[-1]] = txt
-    ctx.inst("R16.1", "printer:suffixes", sufs.get("print_witness_init_value") == '"#0"' and sufs.get("print_witness_input_value") == "@{k}", f["span"], "name suffixes must be #0 for initial values and @<k> for inputs (the reader cuts the name at @ / #): %s" % sufs, sample=sufs)
-    # states printed with id = position, names zipped
+    ctx.inst("R16.1", "printer:suffixes", sufs.get("print_witness_init_value") == ("lit", "#0") and sufs.get("print_witness_input_value") == ("fmt", "@{}", True), f["span"],
+             "name suffixes must be #0 for initial values and @<k> for inputs (the reader cuts the name at @ / #): %s" % sufs, sample=str(sufs))
     # value printers
     for fn_, kinds in (("print_witness_input_value", {"bv": 1}), ("print_witness_init_value", {"bv": 1, "arr": 1})):
         g = ctx.fn("patronus", W + fn_)
-        rows = fmt_tokens(c, g)
-        shapes = sorted(" ".join(tok_str(tk)) for _, _, tk in rows)
-        want = ["{id} {value.to_bit_str()} {name}{suffix}"]
+        gx = Index(g["body"])
+        gdefs = local_defs(g)
+        gp = param_ids(g) + [None] * 5          # (out, value, name, id, suffix)
+        p_value, p_name, p_id, p_suffix = gp[1], gp[2], gp[3], gp[4]
+
+        def role(node, gx=gx, gdefs=gdefs, p_name=p_name, p_id=p_id, p_suffix=p_suffix):
+            n_ = resolve(node)
+            if is_local(n_, p_id):
+                return "id"
+            if is_local(n_, p_name):
+                return "name"
+            if is_local(n_, p_suffix):
+                return "suffix"
+            b_, ms_ = chain(n_)
+            if [m_[0] for m_ in ms_] and ms_[-1][0] in ("to_bit_str", "to_hex_str", "to_dec_str"):
+                radix = {"to_bit_str": "bits", "to_hex_str": "hex", "to_dec_str": "dec"}[ms_[-1][0]]
+                inner = resolve(ms_[-1][2]["recv"])
+                if inner.get("k") == "mcall" and inner["name"] == "select" and len(inner["args"]) == 1:
+                    it = norm_.iter_context(gx, node)
+                    eb = pat_bindings(it["pat"]) if it and it.get("pat") else []
+                    same = len(eb) == 1 and is_local(inner["args"][0], eb[0][1])
+                    return "%s(select(%s))" % (radix, "entry-index" if same else "?" + show(inner["args"][0])[:20])
+                if inner.get("k") == "local":
+                    it = norm_.iter_context(gx, node)
+                    eb = pat_bindings(it["pat"]) if it and it.get("pat") else []
+                    if len(eb) == 1 and is_local(inner, eb[0][1]):
+                        return "%s(entry-index)" % radix
+                    d = gdefs.get(inner["id"]) or gdefs.get(canon(inner["id"]))
+                    if d and d[0] == "arm" and is_local(d[1]["scrut"], p_value):
+                        return "%s(value)" % radix
+                return "%s(?%s)" % (radix, show(inner)[:20])
+            return "?" + show(n_)[:30]
+        rows = []
+        for s_ in fmtstr.macro_sites(c, g["body"], ("write", "writeln")):
+            tk = linewriter.site_tokens(s_, role)
+            if tk is not None:
+                rows.append((s_, " ".join(linewriter.flat(tk))))
+        shapes = sorted(sh for _, sh in rows)
+        want = ["id bits(value) name+suffix"]
         if "arr" in kinds:
-            want = sorted(want + ["{id} [{index.to_bit_str()}] {value.to_bit_str()} {name}{suffix}"])
+            want = sorted(want + ["id '['+bits(entry-index)+']' bits(select(entry-index)) name+suffix"])
         ctx.inst("R16.1", "printer:%s:line-shapes" % fn_, shapes == want, g["span"], "%s writes %s, the reader expects %s" % (fn_, shapes, want), sample=shapes)
         if "arr" in kinds:
-            gx = Index(g["body"])
-            gdefs = local_defs(g)
             okp = False
-            why = "no loop over the indices"
-            for n in gx.nodes:
-                if n.get("k") == "for":
-                    ib = binding_of_pat(n["pat"])
-                    sites = fmtstr.macro_sites(c, n["body"], ("writeln", "write"))
-                    if not ib or len(sites) != 1:
+            why = "no array line found"
+            for s_, sh in rows:
+                if "select(" in sh:
+                    it = norm_.iter_context(gx, s_["node"])
+                    why = "array line `%s`" % sh
+                    if it is None or it["kind"] not in ("for", "closure"):
+                        why += " is not written per index"
                         continue
-                    vals = [d for i, d in gdefs.items() if d[0] == "let" and binding_of_pat(d[2]) and binding_of_pat(d[2])[0] == "value" and contains(n["body"], d[1])]
-                    b2, ms2 = chain(n["iter"])
-                    okp = len(vals) == 1 and show(vals[0][1]["init"]).replace(" ", "") == "a.select(%s)" % ib[0] and [m[0] for m in ms2] == ["iter"] and "zip" not in show(n["iter"])
-                    pc = fmtstr.parse_call(sites[0]["snippet"])
-                    okp = okp and pc[3][0].replace(" ", "") == "%s.to_bit_str()" % ib[0] and pc[3][1].replace(" ", "") == "value.to_bit_str()"
-                    why = "loop `for %s in %s` prints index `%s` with value `%s` = %s" % (show_pat(n["pat"]), show(n["iter"])[:60], pc[3][0], pc[3][1], show(vals[0][1]["init"]) if vals else "?")
+                    b2, ms2 = chain(it["src"])
+                    names2 = [m[0] for m in ms2]
+                    # the entries iterated are the recorded indices (or a sorted copy), one line per index
+                    src = norm_.value_source(gx, gdefs, b2)
+                    sb, sms = chain(src)
+                    from_indices = False
+                    for cand in (b2, sb):
+                        cand = peel(cand)
+                        if cand.get("k") == "local":
+                            d = gdefs.get(cand["id"]) or gdefs.get(canon(cand["id"]))
+                            if d and d[0] == "arm" and is_local(d[1]["scrut"], p_value):
+                                from_indices = True
+                    okp = "select(entry-index)" in sh and "bits(entry-index)" in sh and names2 == ["iter"] and from_indices and all(m[0] in ("clone", "to_vec") for m in sms)
+                    why += " over `%s`" % show(it["src"])[:60]
             ctx.inst("R16.2", "printer:array-entry-pairs-index-with-its-value", okp, g["span"], "every printed array entry must pair an index with the array's value at that same index: %s" % why, sample=why)
+
+
+def assert_eq_pairs(ix):
+    """[(left, right, node)] operands of assert_eq!/debug_assert_eq! sites (the expansion matches on the tuple (&left, &right))"""
+    out = []
+    for n in ix.nodes:
+        if n.get("k") == "match" and peel(n["scrut"]).get("k") == "tuple" and len(peel(n["scrut"])["es"]) == 2 and any(m in ("assert_eq", "debug_assert_eq") for m in mac_names(n)):
+            a, b = peel(n["scrut"])["es"]
+            out.append((peel(a), peel(b), n))
+    return out
 
 
 def reader(ctx, c):
     f = ctx.fn("patronus", W + "parse_witnesses")
     ix = Index(f["body"])
-
-    class _T:
-        def __contains__(self, needle):
-            return anyshow(f["body"], needle)
-    txt = _T()
-    # header / markers
-    ctx.inst("R16.1", "reader:header", '(&line,&"sat")' in txt, f["span"], "the reader must expect the header line `sat`")
-    ctx.inst("R16.1", "reader:property-token", "token.strip_prefix('b')" in txt and "letnum=stripped.parse().unwrap()" in txt and "wit.failed_safety.push(num)" in txt, f["span"], "property tokens must be recognised by stripping the prefix `b` and parsing the number")
-    ctx.inst("R16.1", "reader:state-frame-marker", '(&line,&"#0")' in txt, f["span"], "the reader must expect `#0` as the initial state frame marker")
-    ctx.inst("R16.1", "reader:input-frame-marker", "line.starts_with('@')" in txt, f["span"], "input frames must be recognised by a leading @")
-    ctx.inst("R16.1", "reader:terminator", '(line==".")' in txt, f["span"], "the witness terminator must be the line `.`")
     defs = local_defs(f)
+    asserts = assert_eq_pairs(ix)
 
-    def closure_of(name):
-        for i, d in defs.items():
-            if d[0] == "let" and binding_of_pat(d[2]) and binding_of_pat(d[2])[0] == name and peel(d[1]["init"]).get("k") == "closure":
-                return i, peel(d[1]["init"])
-        return None, None
-    sid, start_inputs = closure_of("start_inputs")
-    ok = start_inputs is not None and "line[range::RangeFrom{start:1}].parse().unwrap()" in show(start_inputs["body"]).replace(" ", "").replace("::<u64>", "") and "wit.inputs.len()" in show(start_inputs["body"])
-    ctx.inst("R16.1", "reader:frame-number", ok, f["span"], "the number after @ must be parsed from the text after the marker and checked against the number of frames read")
-    fid, finish_inputs = closure_of("finish_inputs")
-    okf = False
-    why = "closure finish_inputs not found"
-    if finish_inputs is not None:
-        ps = [binding_of_pat(p) for p in finish_inputs["params"]]
-        body = show(finish_inputs["body"]).replace(" ", "")
-        scratch = ps[1][0] if len(ps) == 2 and ps[1] else "?"
-        okf = ("wit.inputs.push(mem::take(%s))" % scratch in body) or ("wit.inputs.push(%s.clone())" % scratch in body and "%s.clear()" % scratch in body) or ("%s.drain(" % scratch in body and "collect" in body)
-        why = show(finish_inputs["body"])[:140]
-    ctx.inst("R16.2", "reader:finished-frame-pushed-and-scratch-emptied", okf, f["span"],
+    def lit_assert(v):
+        return any((a.get("k") == "local" and b.get("k") == "lit" and b.get("v") == v) or (b.get("k") == "local" and a.get("k") == "lit" and a.get("v") == v) for a, b, _ in asserts)
+    ctx.inst("R16.1", "reader:header", lit_assert("sat"), f["span"], "the reader must expect the header line `sat`")
+    # property tokens: strip the prefix `b`, parse the rest, push it to failed_safety
+    okp = False
+    for n in ix.nodes:
+        if n.get("k") == "mcall" and n["name"] == "push" and field_path(n["recv"]) and field_path(n["recv"])[2] == ["failed_safety"]:
+            v = norm_.value_source(ix, defs, n["args"][0])
+            b_, ms_ = chain(v)
+            if [m_[0] for m_ in ms_] == ["parse", "unwrap"] and peel(b_).get("k") == "local":
+                d = defs.get(peel(b_)["id"]) or defs.get(canon(peel(b_)["id"]))
+                src = None
+                if d and d[0] in ("letexpr", "let"):
+                    src = d[1].get("init")
+                elif d and d[0] == "arm":
+                    src = d[1]["scrut"]
+                if src is not None:
+                    sb, sms = chain(src)
+                    okp = [m_[0] for m_ in sms] == ["strip_prefix"] and peel(sms[0][1][0]).get("v") == "b"
+    ctx.inst("R16.1", "reader:property-token", okp, f["span"], "property tokens must be recognised by stripping the prefix `b` and parsing the number")
+    ctx.inst("R16.1", "reader:state-frame-marker", lit_assert("#0"), f["span"], "the reader must expect `#0` as the initial state frame marker")
+    has_at = any(n.get("k") == "mcall" and n["name"] == "starts_with" and peel(n["args"][0]).get("v") == "@" for n in ix.nodes)
+    ctx.inst("R16.1", "reader:input-frame-marker", has_at, f["span"], "input frames must be recognised by a leading @")
+    has_dot = any(n.get("k") == "binary" and n["op"] == "==" and (peel(n["r"]).get("v") == "." or peel(n["l"]).get("v") == ".") for n in ix.nodes)
+    ctx.inst("R16.1", "reader:terminator", has_dot, f["span"], "the witness terminator must be the line `.`")
+    # frame number: ParsingInputsAt(at) with at = line[1..].parse().unwrap(), asserted equal to the number of frames read
+
+    def after_marker(e):
+        e = norm_.value_source(ix, defs, e)
+        b_, ms_ = chain(e)
+        if [m_[0] for m_ in ms_] != ["parse", "unwrap"]:
+            return False
+        sl = peel(b_)
+        rng = peel(sl["i"]) if sl.get("k") == "index" else {}
+        start = {f_["name"]: f_["e"] for f_ in rng.get("fields", [])}.get("start") if rng.get("k") == "struct" and rng["path"].endswith("RangeFrom") else None
+        return start is not None and peel(start).get("v") == 1
+    starts = [n for n in ix.nodes if n.get("k") == "ctor" and callee(n).endswith("ParserState::ParsingInputsAt") and n.get("args") and after_marker(n["args"][0])]
+    okf = bool(starts)
+    for st in starts:
+        at = peel(st["args"][0])
+        checked = False
+        for a, b, node in asserts:
+            for x, y in ((a, b), (b, a)):
+                xx = x
+                while xx.get("k") == "cast":
+                    xx = peel(xx["e"])
+                yb, yms = chain(y)
+                if at.get("k") == "local" and is_local(xx, at["id"]) and [m_[0] for m_ in yms] == ["len"] and field_path(yb) and field_path(yb)[2] == ["inputs"] and ix.precedes(node, st):
+                    checked = True
+        okf = okf and checked
+    ctx.inst("R16.1", "reader:frame-number", okf, f["span"], "the number after @ must be parsed from the text after the marker and checked against the number of frames read")
+    # finishing an input frame: wit.inputs.push(<the scratch vector, left empty>)
+    pushes = [n for n in ix.nodes if n.get("k") == "mcall" and n["name"] == "push" and field_path(n["recv"]) and field_path(n["recv"])[2] == ["inputs"]]
+    okpush = bool(pushes)
+    why = "no push onto wit.inputs found"
+    scratch = None
+    for pu in pushes:
+        a = peel(pu["args"][0])
+        why = show(pu)[:140]
+        if a.get("k") == "call" and (callee(a) or "").endswith("mem::take") and peel(a["args"][0]).get("k") == "local":
+            scratch = canon(peel(a["args"][0])["id"])
+            continue
+        b_, ms_ = chain(a)
+        if [m_[0] for m_ in ms_] == ["clone"] and peel(b_).get("k") == "local":
+            sid = peel(b_)["id"]
+            scratch = canon(sid)
+            # ... followed by scratch.clear() in the same block
+            blk = ix.parent.get(id(pu))
+            while blk is not None and blk.get("k") != "block":
+                blk = ix.parent.get(id(blk))
+            cleared = blk is not None and any(x.get("k") == "mcall" and x["name"] == "clear" and is_local(x["recv"], sid) and ix.precedes(pu, x) for s_ in blk["stmts"] for x in walk(s_))
+            if cleared:
+                continue
+        if [m_[0] for m_ in ms_][:1] == ["drain"] and "collect" in [m_[0] for m_ in ms_]:
+            continue
+        okpush = False
+    ctx.inst("R16.2", "reader:finished-frame-pushed-and-scratch-emptied", okpush, f["span"],
              "finishing an input frame must push the collected values and leave the scratch vector EMPTY (mem::take / clone+clear): %s - otherwise entries of a longer earlier frame or witness leak into later ones" % why, sample=why)
-    # in the ParsingInputsAt arm every exit (., @, #) calls finish_inputs first
-    arm = None
+    # every way out of an input frame (., @, #) pushes the frame first; continuing the frame does not
+    arms = []
     for n in ix.nodes:
         if n.get("k") == "match":
             for a in n["arms"]:
-                if "ParsingInputsAt" in show_pat(a["pat"]) and not "ParsingStatesAt" in show_pat(a["pat"]):
-                    arm = a
-    oke = arm is not None
-    if oke:
-        ax = Index(arm["body"])
-        branches = []
+                if any(x.get("k") == "pvariant" and x["path"].endswith("ParserState::ParsingInputsAt") for x in walk(a["pat"])) and not any(x.get("k") == "pvariant" and x["path"].endswith("ParserState::ParsingStatesAt") for x in walk(a["pat"])):
+                    arms.append(a)
+    ctx.inst("R16.2", "reader:inputs-arm", bool(arms), f["span"], "UNRECOGNISED: no ParsingInputsAt arm")
+    bi = 0
+    for arm in arms:
+        at_ids = {i for _, i in pat_bindings(arm["pat"])}
+        for lf in result_leaves(arm["body"]):
+            bi += 1
+            lfv = peel(lf)
+            continuing = lfv.get("k") == "ctor" and callee(lfv).endswith("ParserState::ParsingInputsAt") and lfv.get("args") and peel(lfv["args"][0]).get("k") == "local" and peel(lfv["args"][0])["id"] in at_ids
+            before = [pu for pu in pushes if contains(arm["body"], pu) and ix.dominates(pu, lf)]
+            okb = (len(before) == 0) if continuing else (len(before) == 1)
+            conds = [("" if pol else "!") + show(c_)[:30] for c_, pol in norm_.path_conditions(ix, lf, upto=None) if contains(arm["body"], c_)]
+            ctx.inst("R16.2", "reader:inputs-exit#%d" % bi, okb, lf.get("sp"), "leaving an input frame (%s -> %s) must first push the frame exactly once; the continuing branch must not (pushes before: %d)" % (conds, show(lfv)[:40], len(before)))
+    # initial values: merged through update_value at the parsed id, names stored at the same id, only in frame 0
 
-        def collect(n):
-            n = peel_block(n) if n.get("k") == "blockexpr" and not n["b"]["stmts"] else n
-            if n.get("k") == "if":
-                branches.append((show(n["cond"]), n["then"]))
-                if "else" in n:
-                    collect(n["else"])
-            else:
-                branches.append(("else", n))
-        collect(arm["body"])
-        for bi, (cond, br) in enumerate(branches):
-            calls = [x for x in walk(br) if x.get("k") == "callv" and is_local(x["f"], fid)]
-            cont = "ParsingInputsAt(at)" in show(br).replace(" ", "") and "parse_assignment" in show(br)
-            okb = (len(calls) == 1) != cont and (cont or stmts_of(br) and any(is_local(y["f"], fid) for y in walk(stmts_of(br)[0]) if y.get("k") == "callv"))
-            ctx.inst("R16.2", "reader:inputs-exit#%d:%s" % (bi + 1, re.sub(r"\W+", "_", cond)[:30]), okb, br.get("sp"), "leaving an input frame under `%s` must first push the frame (finish_inputs) exactly once; the continuing branch must not" % cond[:60])
-    ctx.inst("R16.2", "reader:inputs-arm", oke, f["span"], "UNRECOGNISED: no ParsingInputsAt arm")
-    # initial values: merged through update_value at the parsed id, names stored at the same id
-    ok_init = "wit.init[ii]=witness::update_value(wit.init[ii].clone(),value)" in txt and "wit.init_names[ii]=Option::Some(name.to_string())" in txt and "if(at==0)" in txt
+    def index_assigns(field_or_local):
+        out = []
+        for a in ix.nodes:
+            if a.get("k") == "assign" and peel(a["l"]).get("k") == "index":
+                base = peel(a["l"])["e"]
+                fp = field_path(base)
+                if isinstance(field_or_local, str) and fp and fp[2] == [field_or_local]:
+                    out.append(a)
+                elif not isinstance(field_or_local, str) and field_or_local is not None and is_local(base, field_or_local):
+                    out.append(a)
+        return out
+    ok_init = False
+    for a in index_assigns("init"):
+        r = peel(a["r"])
+        idx = peel(a["l"])["i"]
+        if r.get("k") == "call" and callee(r) == W + "update_value" and len(r["args"]) == 2:
+            old = norm_.value_source(ix, defs, r["args"][0])
+            ob, oms = chain(old)
+            old_ok = [m_[0] for m_ in oms] in (["clone"], []) and peel(ob).get("k") == "index" and field_path(peel(ob)["e"]) and field_path(peel(ob)["e"])[2] == ["init"] and local_id(peel(ob)["i"]) is not None and local_id(peel(ob)["i"]) == local_id(idx)
+            conds = norm_.path_conditions(ix, a)
+            frame0 = any(pol and c_.get("k") == "binary" and c_["op"] == "==" and (peel(c_["r"]).get("v") == 0 or peel(c_["l"]).get("v") == 0) for c_, pol in conds)
+            names = [b for b in index_assigns("init_names") if local_id(peel(b["l"])["i"]) == local_id(idx) and ix.regions[id(b)] == ix.regions[id(a)]]
+            ok_init = old_ok and frame0 and len(names) == 1 and peel(names[0]["r"]).get("k") == "ctor"
     ctx.inst("R16.2", "reader:init-merge", ok_init, f["span"], "initial values must be merged per state id with update_value and named at the same id (only frame #0)")
-    ok_in = "inputs[ii]=value.try_into().ok()" in txt and "wit.input_names[ii]=Option::Some(name.to_string())" in txt
+    ok_in = False
+    if scratch is not None:
+        for a in index_assigns(scratch):
+            rb, rms = chain(a["r"])
+            idx = peel(a["l"])["i"]
+            names = [b for b in index_assigns("input_names") if local_id(peel(b["l"])["i"]) == local_id(idx)]
+            ok_in = [m_[0] for m_ in rms] == ["try_into", "ok"] and peel(rb).get("k") == "local" and len(names) == 1 and peel(names[0]["r"]).get("k") == "ctor"
     ctx.inst("R16.2", "reader:input-store", ok_in, f["span"], "input values and names must be stored at the parsed input id")
-    # parse_assignment
-    g = ctx.fn("patronus", W + "parse_assignment")
-    class _G:
-        def __contains__(self, needle):
-            return anyshow(g["body"], needle)
+    assignment(ctx)
+    merge(ctx)
 
-        def replace(self, *a):
-            return self
-    gt = _G()
-    idx = {}
-    for n in walk(g["body"]):
-        if n.get("k") == "index" and peel(n["e"]).get("k") == "local" and peel(n["e"])["name"] == "tokens" and peel(n["i"]).get("k") == "lit":
-            idx.setdefault(peel(n["i"])["v"], []).append(n)
-    m = [n for n in walk(g["body"]) if n.get("k") == "match" and "tokens.len()" in show(n["scrut"])]
-    lens = {}
+
+def result_leaves(e):
+    """the expressions an arm body can evaluate to (through blocks, if/else chains and nested matches)"""
+    e = norm_.tail_value(e)
+    k = e.get("k")
+    if k == "blockexpr":
+        if "tail" in e["b"]:
+            return result_leaves(e["b"]["tail"])
+        return []
+    if k == "if" and "else" in e:
+        return result_leaves(e["then"]) + result_leaves(e["else"])
+    if k == "match":
+        out = []
+        for a in e["arms"]:
+            out += result_leaves(a["body"])
+        return out
+    if e.get("ty") == "!" or k in ("break", "continue", "return"):
+        return []
+    return [e]
+
+
+def assignment(ctx):
+    g = ctx.fn("patronus", W + "parse_assignment")
+    gx = Index(g["body"])
+    gdefs = local_defs(g)
+    p_tokens = (param_ids(g) + [None])[0]
+
+    def tok_k(e):
+        """K for tokens[K]; 'last' for tokens.last().unwrap() / tokens[tokens.len() - 1]"""
+        e = norm_.value_source(gx, gdefs, e)
+        b_, ms_ = chain(e)
+        if [m_[0] for m_ in ms_] in (["last", "unwrap"], ["last", "expect"]) and is_local(b_, p_tokens):
+            return "last"
+        e = peel(e)
+        if e.get("k") == "index" and is_local(e["e"], p_tokens):
+            i = resolve(e["i"])
+            if i.get("k") == "lit":
+                return i["v"]
+            if i.get("k") == "binary" and i["op"] == "-" and peel(i["r"]).get("v") == 1:
+                lb, lms = chain(resolve(i["l"]))
+                if [m_[0] for m_ in lms] == ["len"] and is_local(lb, p_tokens):
+                    return "last"
+        return None
+
+    # token count: exactly 3 (bit vector) or 4 (array entry); anything else is rejected
+    is_array_expr = None
+    lens_ok = False
+    m = [n for n in gx.nodes if n.get("k") == "match" and [m_[0] for m_ in chain(resolve(n["scrut"]))[1]] == ["len"] and is_local(chain(resolve(n["scrut"]))[0], p_tokens)]
     if m:
+        lens = {}
+        other_diverges = False
         for a in m[0]["arms"]:
             if a["pat"].get("k") == "plit":
                 lens[a["pat"]["v"]] = peel(a["body"]).get("v")
-    ctx.inst("R16.1", "reader:token-count", lens == {3: False, 4: True}, g["span"], "assignments must have 3 tokens (bit-vector) or 4 tokens (array entry): %s" % lens, sample=lens)
-    ctx.inst("R16.1", "reader:id-at-0", "tokens[0].parse().unwrap()" in gt.replace("::<u64>", ""), g["span"], "the state/input id must be read from token 0")
-    ctx.inst("R16.1", "reader:bv-value-at-1", "BitVecValue::from_bit_str(tokens[1]).unwrap()" in gt, g["span"], "a bit-vector value must be read from token 1 in binary")
-    ctx.inst("R16.1", "reader:array-index-at-1-in-brackets", "letindex_str=tokens[1]" in gt and "index_str.starts_with('[')&&index_str.ends_with(']')" in gt and "from_bit_str(&index_str[range::Range{start:1,end:(index_str.len()-1)}])" in gt, g["span"],
-             "an array index must be read from token 1, between [ and ], in binary")
-    ctx.inst("R16.1", "reader:array-data-at-2", "letdata=BitVecValue::from_bit_str(tokens[2]).unwrap()" in gt, g["span"], "array data must be read from token 2 in binary")
-    ctx.inst("R16.1", "reader:name-last-suffix-cut", "tokens.last().unwrap().split('@').next().unwrap().split('#').next().unwrap()" in gt, g["span"], "the name must be the last token with everything from the first @ or # removed")
-    stored = "array.store(&array_index,&data)" in gt
-    rec = False
-    for n in walk(g["body"]):
-        if n.get("k") == "let" and binding_of_pat(n["pat"]) and binding_of_pat(n["pat"])[0] == "indices":
-            rec = [x["name"] for x in walk(n["init"]) if x.get("k") == "local"] == ["array_index"]
-    ctx.inst("R16.2", "reader:array-entry-stored", stored and rec, g["span"],
-             "an array entry must be stored at its index and the index recorded")
-    # update_value
-    h = ctx.fn("patronus", W + "update_value")
-    class _H:
-        def __contains__(self, needle):
-            return anyshow(h["body"], needle)
+            elif a["pat"].get("k") in ("pwild", "pbind"):
+                other_diverges = a["body"].get("ty") == "!" or norm_._diverges(a["body"])
+        lens_ok = lens == {3: False, 4: True} and other_diverges
+    else:
+        # `if !(3..=4).contains(&n) { panic }` / `if n < 3 || n > 4 { panic }` and `is_array = n == 4`
+        rejects = False
+        for n in gx.nodes:
+            if n.get("k") == "if" and "else" not in n and norm_._diverges(n["then"]):
+                for c_, pol in norm_.path_conditions(gx, n["then"]):
+                    if c_.get("k") == "mcall" and c_["name"] == "contains" and not pol:
+                        rng = resolve(c_["recv"])
+                        if rng.get("k") == "call" and (callee(rng) or "").endswith("RangeInclusive::new") and [peel(x).get("v") for x in rng["args"]] == [3, 4]:
+                            lb, lms = chain(resolve(c_["args"][0]))
+                            rejects = [m_[0] for m_ in lms] == ["len"] and is_local(lb, p_tokens)
+        for i_, d in gdefs.items():
+            if d[0] == "let" and "init" in d[1] and (d[2].get("ty") or "") == "bool":
+                e = resolve(d[1]["init"])
+                if e.get("k") == "binary" and e["op"] == "==" and (peel(e["r"]).get("v") == 4 or peel(e["l"]).get("v") == 4):
+                    other = e["l"] if peel(e["r"]).get("v") == 4 else e["r"]
+                    lb, lms = chain(resolve(other))
+                    if [m_[0] for m_ in lms] == ["len"] and is_local(lb, p_tokens):
+                        lens_ok = rejects
+    ctx.inst("R16.1", "reader:token-count", lens_ok, g["span"], "assignments must have 3 tokens (bit-vector) or 4 tokens (array entry), anything else must be rejected")
 
-        def __getitem__(self, k):
-            return show(h["body"])[:200]
-    ht = _H()
-    okm = "forindexinni.iter(){oa.store(index,&na.select(index))}" in ht and "oi.extend_from_slice(&ni)" in ht and "(InitValue::None,n)=>n" in ht
-    ctx.inst("R16.2", "reader:update_value-merges-per-index", okm, h["span"], "merging two array values must store every new index's value into the old array and record the indices; the first value replaces None: %s" % ht[:200])
+    def parse_of_token(e, k):
+        e = norm_.value_source(gx, gdefs, e)
+        while e.get("k") == "cast":
+            e = peel(e["e"])
+            e = norm_.value_source(gx, gdefs, e)
+        b_, ms_ = chain(e)
+        return [m_[0] for m_ in ms_] == ["parse", "unwrap"] and tok_k(b_) == k
+
+    def from_bits(e):
+        """(K, slice?) when e = BitVecValue::from_bit_str(tokens[K] or a sub-slice of it).unwrap()"""
+        e = norm_.value_source(gx, gdefs, e)
+        b_, ms_ = chain(e)
+        if [m_[0] for m_ in ms_] != ["unwrap"] or b_.get("k") != "call" or not (callee(b_) or "").endswith("BitVecValue::from_bit_str"):
+            return None
+        a = norm_.value_source(gx, gdefs, b_["args"][0])
+        if tok_k(a) is not None:
+            return tok_k(a), None
+        a = peel(a)
+        if a.get("k") == "index":
+            base = a["e"]
+            rng = peel(a["i"])
+            if tok_k(base) is not None and rng.get("k") == "struct" and rng["path"].endswith("ops::range::Range"):
+                fs = {f_["name"]: peel(f_["e"]) for f_ in rng["fields"]}
+                st, en = fs.get("start", {}), resolve(fs.get("end", {}))
+                inner = st.get("v") == 1 and en.get("k") == "binary" and en["op"] == "-" and peel(en["r"]).get("v") == 1 and [m_[0] for m_ in chain(resolve(en["l"]))[1]] == ["len"] \
+                    and tok_k(chain(resolve(en["l"]))[0]) == tok_k(base)
+                return tok_k(base), ("inner" if inner else "other")
+        return None
+    # what the function returns: (index, name, value)
+    rets = [n for n in gx.nodes if n.get("k") == "tuple" and len(n["es"]) == 3 and (n.get("ty") or "").startswith("(usize")]
+    ok_id = bool(rets) and all(parse_of_token(r["es"][0], 0) for r in rets)
+    ctx.inst("R16.1", "reader:id-at-0", ok_id, g["span"], "the state/input id must be read from token 0")
+    bv = [r for r in rets if peel(r["es"][2]).get("k") == "ctor" and callee(peel(r["es"][2])).endswith("InitValue::BitVec")]
+    ok_bv = len(bv) == 1 and from_bits(peel(bv[0]["es"][2])["args"][0]) == (1, None)
+    ctx.inst("R16.1", "reader:bv-value-at-1", ok_bv, g["span"], "a bit-vector value must be read from token 1 in binary")
+    stores = [n for n in gx.nodes if n.get("k") == "mcall" and n["name"] == "store" and len(n["args"]) == 2]
+    ok_idx = ok_data = False
+    brackets = False
+    if len(stores) == 1:
+        fi = from_bits(stores[0]["args"][0])
+        fd = from_bits(stores[0]["args"][1])
+        ok_idx = fi == (1, "inner")
+        ok_data = fd == (2, None)
+        # the brackets are checked
+        for n in gx.nodes:
+            if n.get("k") == "mcall" and n["name"] == "starts_with" and peel(n["args"][0]).get("v") == "[" and tok_k(n["recv"]) == 1:
+                brackets = any(x.get("k") == "mcall" and x["name"] == "ends_with" and peel(x["args"][0]).get("v") == "]" and tok_k(x["recv"]) == 1 for x in gx.nodes)
+    ctx.inst("R16.1", "reader:array-index-at-1-in-brackets", ok_idx and brackets, g["span"], "an array index must be read from token 1, between [ and ], in binary")
+    ctx.inst("R16.1", "reader:array-data-at-2", ok_data, g["span"], "array data must be read from token 2 in binary")
+    # the name: last token, cut at the first @ or #
+    ok_name = bool(rets)
+    for r in rets:
+        ok_name = ok_name and name_cut(gx, gdefs, r["es"][1], tok_k)
+    ctx.inst("R16.1", "reader:name-last-suffix-cut", ok_name, g["span"], "the name must be the last token with everything from the first @ or # removed")
+    arr = [r for r in rets if peel(r["es"][2]).get("k") == "ctor" and callee(peel(r["es"][2])).endswith("InitValue::Array")]
+    rec = False
+    if len(arr) == 1 and len(stores) == 1:
+        av = peel(arr[0]["es"][2])
+        idxs = norm_.value_source(gx, gdefs, av["args"][1])
+        idx_locals = [x for x in walk(idxs) if x.get("k") == "local"]
+        rec = is_local(av["args"][0], local_id(stores[0]["recv"])) and len(idx_locals) == 1 and is_local(idx_locals[0], local_id(stores[0]["args"][0])) and gx.precedes(stores[0], arr[0])
+    ctx.inst("R16.2", "reader:array-entry-stored", rec, g["span"], "an array entry must be stored at its index and the index recorded")
+
+
+def name_cut(gx, gdefs, e, tok_k):
+    """e is the last token with everything from the first '@' or '#' removed: `.split('@').next().unwrap().split('#').next().unwrap()`
+    (either order) or `match s.find(['@', '#']) { Some(i) => &s[..i], None => s }`"""
+    e = norm_.value_source(gx, gdefs, e)
+    b_, ms_ = chain(e)
+    names = [m_[0] for m_ in ms_]
+    if tok_k(b_) == "last" and names == ["split", "next", "unwrap", "split", "next", "unwrap"]:
+        chars = {peel(ms_[0][1][0]).get("v"), peel(ms_[3][1][0]).get("v")}
+        return chars == {"@", "#"}
+    # last().unwrap() is part of the chain when the base is the token slice itself
+    if names[:2] == ["last", "unwrap"] and names[2:] == ["split", "next", "unwrap", "split", "next", "unwrap"]:
+        chars = {peel(ms_[2][1][0]).get("v"), peel(ms_[5][1][0]).get("v")}
+        return chars == {"@", "#"}
+    oe = norm_.opt_elim(e)
+    if oe is not None and oe["bind"] is not None and oe["some"] is not None:
+        sb, sms = chain(oe["scrut"])
+        if [m_[0] for m_ in sms] == ["find"] and tok_k(sb) == "last":
+            pat = peel(sms[0][1][0])
+            chars = {peel(x).get("v") for x in pat.get("es", [])} if pat.get("k") == "array" else set()
+            some = peel(norm_.tail_value(oe["some"]))
+            rng = peel(some["i"]) if some.get("k") == "index" else {}
+            upto = rng.get("k") == "struct" and rng["path"].endswith("RangeTo") and is_local({f_["name"]: f_["e"] for f_ in rng["fields"]}.get("end", {}), oe["bind"])
+            return chars == {"@", "#"} and some.get("k") == "index" and tok_k(some["e"]) == "last" and upto and tok_k(oe["none"]) == "last"
+    return False
+
+
+def merge(ctx):
+    h = ctx.fn("patronus", W + "update_value")
+    hx = Index(h["body"])
+    m = [n for n in hx.nodes if n.get("k") == "match" and peel(n["scrut"]).get("k") == "tuple"]
+    okm = False
+    if m:
+        okm = True
+        seen_arr = seen_none = False
+        for arm in m[0]["arms"]:
+            pat = arm["pat"]
+            if pat.get("k") != "ptuple" or len(pat["subs"]) != 2:
+                continue
+            a, b = pat["subs"]
+            if a.get("k") == "pvariant" and a["path"].endswith("InitValue::Array") and b.get("k") == "pvariant" and b["path"].endswith("InitValue::Array"):
+                seen_arr = True
+                oa, oi = [binding_of_pat(x) for x in a["subs"]]
+                na, ni = [binding_of_pat(x) for x in b["subs"]]
+                # every new index's value is stored into the old array, the indices are recorded, the old array is returned
+                st = [x for x in walk(arm["body"]) if x.get("k") == "mcall" and x["name"] == "store" and is_local(x["recv"], oa[1])]
+                ok_store = False
+                for s_ in st:
+                    it = norm_.iter_context(Index(arm["body"]), s_)
+                    if it is None or it["kind"] not in ("for", "closure"):
+                        continue
+                    eb = pat_bindings(it["pat"])
+                    sb, sms = chain(it["src"])
+                    val = peel(s_["args"][1])
+                    ok_store = len(eb) == 1 and is_local(sb, ni[1]) and [m_[0] for m_ in sms] == ["iter"] and is_local(s_["args"][0], eb[0][1]) \
+                        and val.get("k") == "mcall" and val["name"] == "select" and is_local(val["recv"], na[1]) and is_local(val["args"][0], eb[0][1])
+                ext = [x for x in walk(arm["body"]) if x.get("k") == "mcall" and x["name"] in ("extend_from_slice", "extend", "append") and is_local(x["recv"], oi[1]) and any(y.get("k") == "local" and canon(y["id"]) == canon(ni[1]) for y in walk(x["args"][0]))]
+                res = peel(norm_.tail_value(arm["body"]))
+                while res.get("k") == "blockexpr" and "tail" in res["b"]:
+                    res = peel(norm_.tail_value(res["b"]["tail"]))
+                ok_res = res.get("k") == "ctor" and callee(res).endswith("InitValue::Array") and is_local(res["args"][0], oa[1]) and is_local(res["args"][1], oi[1])
+                okm = okm and ok_store and len(ext) == 1 and ok_res
+            if a.get("k") == "pvariant" and a["path"].endswith("InitValue::None"):
+                nb = binding_of_pat(b)
+                seen_none = nb is not None and is_local(norm_.tail_value(arm["body"]), nb[1])
+        okm = okm and seen_arr and seen_none
+    ctx.inst("R16.2", "reader:update_value-merges-per-index", okm, h["span"], "merging two array values must store every new index's value into the old array and record the indices; the first value replaces None: %s" % show(h["body"])[:200])
